@@ -169,43 +169,105 @@ def run_harness(binary, replay=None, seed=1, nk=100, nt=100):
 
 # ------------------------------------------------------------------ validation matrix
 
-# Sizes per workload: the set on which the workload's own tiling constants allow
-# a run (found by exploration on the unchanged tree; docs/C01.md lists the sizes
-# that were excluded and why).  First entry = smallest/quickest.
-W = collections.OrderedDict()
-W['fir'] = dict(sizes=['-length=100', '-length=1000', '-length=65', '-length=199 -taps=33', '-length=1', '-length=4096'], cdna3=True, multi=True, unified=True, um=True, timing=True)
-W['aes'] = dict(sizes=['-length=1024', '-length=16', '-length=4096'], cdna3=True, multi=True, unified=True, um=True, timing=True)
-W['atax'] = dict(sizes=['-x=64 -y=64', '-x=33 -y=17', '-x=100 -y=64', '-x=1 -y=1'], cdna3=True, multi=True, unified=True, um=True, timing=True)
-W['bicg'] = dict(sizes=['-x=64 -y=64', '-x=33 -y=17', '-x=64 -y=100', '-x=1 -y=1'], cdna3=True, multi=True, unified=True, um=True, timing=True)
-W['bfs'] = dict(sizes=['-node=100', '-node=63', '-node=257', '-node=1000 -degree=5'], cdna3=True, multi=False, unified=True, um=True, timing=True)
-W['bitonicsort'] = dict(sizes=['-length=256', '-length=64', '-length=2', '-length=256 -order-asc=false'], cdna3=True, multi=True, unified=True, um=True, timing=False)
-W['fastwalshtransform'] = dict(sizes=['-length=256', '-length=512', '-length=2048'], cdna3=True, multi=False, unified=True, um=True, timing=False)
-W['fft'] = dict(sizes=['-bytes=65536', '-bytes=8192', '-bytes=131072 -passes=2'], cdna3=True, multi=True, unified=True, um=True, timing=True)
-W['floydwarshall'] = dict(sizes=['-node=16', '-node=8', '-node=32', '-node=16 -iter=3'], cdna3=True, multi=True, unified=True, um=True, timing=True,
-                          timing_sizes=['-node=16', '-node=8', '-node=16 -iter=3'])
-W['kmeans'] = dict(sizes=['-points=100 -features=8 -clusters=3 -max-iter=2', '-points=65 -features=3 -clusters=2 -max-iter=3',
-                          '-points=1 -features=1 -clusters=1 -max-iter=1', '-points=256 -features=34 -clusters=5 -max-iter=2'],
+# Every size parameter of a workload has its own value list and is drawn
+# INDEPENDENTLY (rectangular shapes, values straddling multiples of the
+# work-group / tile size in each dimension separately).  A combination that
+# fails on the clean tree is not left out silently: it belongs to a known
+# finding with a matcher (KNOWN below, tools/checks/c01_known.json) and the
+# class has a witness that is run on every check.  Only inherent domain limits
+# are encoded in the value lists themselves (power-of-two lengths for
+# bitonicsort / fastwalshtransform, AES block multiples, fft >= 8 KiB, a graph /
+# matrix with at least one edge / non-zero).
+P = collections.OrderedDict()
+P['fir'] = dict(params=[('length', [1, 63, 64, 65, 100, 199, 255, 256, 257, 1000, 4096]), ('taps', [1, 16, 33])],
+                cdna3=True, multi=True, unified=True, um=True, timing=True)
+P['aes'] = dict(params=[('length', [16, 64, 1024, 4096])], cdna3=True, multi=True, unified=True, um=True, timing=True)
+P['atax'] = dict(params=[('x', [1, 17, 33, 64, 100, 200, 256, 257, 300]), ('y', [1, 17, 33, 64, 100, 200, 256, 257, 300])],
+                 cdna3=True, multi=True, unified=True, um=True, timing=True)
+P['bicg'] = dict(params=[('x', [1, 17, 33, 64, 100, 200, 256, 257, 300]), ('y', [1, 17, 33, 64, 100, 200, 256, 257, 300])],
+                 cdna3=True, multi=True, unified=True, um=True, timing=True)
+P['bfs'] = dict(params=[('node', [2, 63, 100, 257, 1000]), ('degree', [1, 3, 5]), ('depth', [0, 2])],
+                cdna3=True, multi=False, unified=True, um=True, timing=True)
+P['bitonicsort'] = dict(params=[('length', [2, 64, 256, 512]), ('order-asc', ['true', 'false'])],
+                        cdna3=True, multi=True, unified=True, um=True, timing=False)
+P['fastwalshtransform'] = dict(params=[('length', [2, 64, 256, 512, 2048])], cdna3=True, multi=True, unified=True, um=True, timing=False)
+P['fft'] = dict(params=[('bytes', [8192, 65536, 131072]), ('passes', [1, 2])], cdna3=True, multi=True, unified=True, um=True, timing=True)
+P['floydwarshall'] = dict(params=[('node', [8, 16, 17, 24, 32, 48]), ('iter', [0, 1, 3])], cdna3=True, multi=True, unified=True, um=True, timing=True)
+P['kmeans'] = dict(params=[('points', [1, 65, 100, 256, 1000]), ('features', [1, 3, 8, 34]), ('clusters', [1, 2, 5, 7]), ('max-iter', [1, 2, 3])],
                    cdna3=True, multi=True, unified=True, um=True, timing=True)
-W['matrixmultiplication'] = dict(sizes=['-x=32 -y=32 -z=32', '-x=16 -y=16 -z=16', '-x=64 -y=32 -z=16', '-x=64 -y=32 -z=32'], cdna3=True, multi=True, unified=True, um=True, timing=True,
-                                 cdna3_sizes=['-x=32 -y=32 -z=32', '-x=64 -y=32 -z=32'])
-W['matrixtranspose'] = dict(sizes=['-width=128', '-width=256', '-width=64'], cdna3=True, multi=True, unified=True, um=True, timing=True, multi_sizes=['-width=256'])
-W['nbody'] = dict(sizes=['-particles=128 -iter=2', '-particles=100 -iter=2', '-particles=64 -iter=1', '-particles=1 -iter=1'], cdna3=True, multi=True, unified=True, um=True, timing=True)
-W['nw'] = dict(sizes=['-length=64', '-length=128'], cdna3=True, multi=False, unified=False, um=False, timing=False)
-W['pagerank'] = dict(sizes=['-node=32 -sparsity=0.5 -iterations=2', '-node=65 -sparsity=0.1 -iterations=2', '-node=1 -sparsity=1 -iterations=1'],
+P['matrixmultiplication'] = dict(params=[('x', [16, 32, 48, 64, 96]), ('y', [16, 32, 48, 64]), ('z', [16, 32, 48, 64])],
+                                 cdna3=True, multi=True, unified=True, um=True, timing=True)
+P['matrixtranspose'] = dict(params=[('width', [64, 100, 128, 192, 256])], cdna3=True, multi=True, unified=True, um=True, timing=True)
+P['nbody'] = dict(params=[('particles', [1, 64, 100, 128, 256]), ('iter', [1, 2, 3])], cdna3=True, multi=True, unified=True, um=True, timing=True)
+P['nw'] = dict(params=[('length', [64, 128, 192])], cdna3=True, multi=False, unified=False, um=False, timing=False)
+P['pagerank'] = dict(params=[('node', [1, 16, 32, 65, 100]), ('sparsity', [1, 0.5, 0.1, 0.05]), ('iterations', [1, 2, 3])],
                      cdna3=True, multi=True, unified=True, um=True, timing=True)
-W['relu'] = dict(sizes=['-length=1000', '-length=63', '-length=1', '-length=4097'], cdna3=True, multi=True, unified=True, um=True, timing=True, multi_sizes=['-length=1000', '-length=4096'])
-W['simpleconvolution'] = dict(sizes=['-width=30 -height=30', '-width=17 -height=33', '-width=1 -height=1', '-width=64 -height=64 -mask-size=5'],
+P['relu'] = dict(params=[('length', [1, 63, 64, 65, 1000, 4097])], cdna3=True, multi=True, unified=True, um=True, timing=True)
+P['simpleconvolution'] = dict(params=[('width', [1, 16, 17, 30, 64, 100]), ('height', [1, 16, 17, 30, 64, 100]), ('mask-size', [3, 5, 7])],
                               cdna3=True, multi=True, unified=True, um=True, timing=True)
-W['spmv'] = dict(sizes=['-dim=64 -sparsity=0.1', '-dim=63 -sparsity=0.1', '-dim=100 -sparsity=0.05', '-dim=1 -sparsity=1'], cdna3=True, multi=True, unified=True, um=False, timing=True)
-W['stencil2d'] = dict(sizes=['-row=64 -col=64', '-row=64 -col=128', '-row=64 -col=64 -iter=3'], cdna3=True, multi=True, unified=True, um=True, timing=True)
-W['vectoradd'] = dict(sizes=['-width=100 -height=3', '-width=65 -height=3', '-width=63 -height=1', '-width=4096 -height=1'], cdna3=True, multi=False, unified=True, um=False, timing=False)
-W['conv2d'] = dict(sizes=['', '-H=8 -W=8 -pad-x=1 -pad-y=1 -stride-x=2 -stride-y=2'], cdna3=False, multi=False, unified=False, um=False, timing=False)
-W['im2col'] = dict(sizes=['', '-H=8 -W=8 -pad-x=1 -pad-y=1 -stride-x=2 -stride-y=2 -dilate-x=2 -dilate-y=2'], cdna3=False, multi=False, unified=False, um=False, timing=False)
-W['memcopy'] = dict(sizes=[''], cdna3=False, multi=False, unified=False, um=False, timing=False)
+P['spmv'] = dict(params=[('dim', [8, 63, 64, 100, 128, 129, 256]), ('sparsity', [1, 0.1, 0.05, 0.02])],
+                 cdna3=True, multi=True, unified=True, um=False, timing=True)
+P['stencil2d'] = dict(params=[('row', [34, 64, 66]), ('col', [64, 66, 127, 128, 192]), ('iter', [1, 3])],
+                      cdna3=True, multi=True, unified=True, um=True, timing=True)
+P['vectoradd'] = dict(params=[('width', [1, 63, 65, 100, 1000, 4096]), ('height', [1, 2, 3])], cdna3=True, multi=True, unified=True, um=False, timing=False)
+P['conv2d'] = dict(params=[('N', [1, 2]), ('C', [1, 3]), ('H', [8, 9, 28]), ('W', [8, 11, 28]), ('output-channel', [1, 2, 3]),
+                           ('kernel-height', [1, 3]), ('kernel-width', [1, 3]), ('pad-x', [0, 1]), ('pad-y', [0, 1]),
+                           ('stride-x', [1, 2]), ('stride-y', [1, 2])], cdna3=False, multi=False, unified=False, um=False, timing=False)
+P['im2col'] = dict(params=[('N', [1, 2]), ('C', [1, 3]), ('H', [8, 9, 28]), ('W', [8, 11, 28]), ('kernel-height', [1, 3]),
+                           ('kernel-width', [1, 3]), ('pad-x', [0, 1]), ('pad-y', [0, 1]), ('stride-x', [1, 2]), ('stride-y', [1, 2]),
+                           ('dilate-x', [1, 2]), ('dilate-y', [1, 2])], cdna3=False, multi=False, unified=False, um=False, timing=False)
+P['memcopy'] = dict(params=[], cdna3=False, multi=False, unified=False, um=False, timing=False)
 
-# Known findings: (id, witness command, timeout, matcher on a configuration, text)
 HANG2 = ('relu', 'aes', 'simpleconvolution')
 
+
+def vals(c):
+    """size parameters of a configuration as numbers"""
+    d = {}
+    for tok in c['size'].split():
+        k, v = tok.lstrip('-').split('=')
+        try:
+            d[k] = int(v)
+        except ValueError:
+            try:
+                d[k] = float(v)
+            except ValueError:
+                d[k] = v
+    return d
+
+
+def discrete(c):
+    return c['ngpu'] >= 2 and not c['unified']
+
+
+def remainder_dropped(c):
+    """work-items per GPU computed as N / nGPU: the remainder is never launched"""
+    if not discrete(c):
+        return False
+    v, n, w = vals(c), c['ngpu'], c['w']
+    if w in ('fir', 'relu'):
+        return v.get('length', 4096) % n != 0
+    if w == 'aes':
+        return (v.get('length', 65536) // 16) % n != 0
+    if w == 'bitonicsort':
+        return (v.get('length', 1024) // 2) % n != 0
+    if w == 'kmeans':
+        return v.get('points', 1024) % n != 0
+    if w == 'matrixtranspose':
+        return v.get('width', 256) % (64 * n) != 0
+    return False
+
+
+def mm_tiles(c):
+    if c['w'] != 'matrixmultiplication':
+        return False
+    v = vals(c)
+    if c['arch'] == 'cdna3':
+        return v['x'] % 32 != 0 or v['z'] % 32 != 0
+    return v['x'] % 32 != 0 and v['z'] >= 32
+
+
+# Known findings: id (= key in c01_known.json), witness command, timeout, matcher on a configuration, text
 KNOWN = [
     dict(id='unified-memory-timing-multi-gpu', witness='atax -x=64 -y=64 -gpus=1,2 -timing -use-unified-memory', timeout=60,
          match=lambda c: c['timing'] and c['um'] and c['ngpu'] >= 2,
@@ -219,21 +281,66 @@ KNOWN = [
     dict(id='timing-discrete-multi-gpu-hang', witness='fir -length=64 -timing -gpus=1,2,3', timeout=30, hang=True,
          match=lambda c: False, text='same class, >=3 GPUs witness'),
     dict(id='fastwalshtransform-discrete-multi-gpu', witness='fastwalshtransform -length=256 -gpus=1,2', timeout=60,
-         match=lambda c: c['w'] == 'fastwalshtransform' and not c['unified'] and c['ngpu'] >= 2,
+         match=lambda c: c['w'] == 'fastwalshtransform' and discrete(c),
          text='fastwalshtransform with N discrete GPUs enqueues the complete in-place transform on every GPU queue, so the array is '
               'transformed N times: -verify fails in emulation (amd/benchmarks/amdappsdk/fastwalshtransform exec)'),
     dict(id='vectoradd-discrete-multi-gpu', witness='vectoradd -width=4096 -height=1 -gpus=1,2', timeout=60,
-         match=lambda c: c['w'] == 'vectoradd' and not c['unified'] and c['ngpu'] >= 2,
+         match=lambda c: c['w'] == 'vectoradd' and discrete(c),
          text='vectoradd with N discrete GPUs: every GPU computes the first 1/N of the vectors (the global offset is only passed as a '
               'hidden argument the kernels do not use for the element index): -verify fails in emulation, gcn3 and cdna3'),
+    dict(id='discrete-multi-gpu-remainder', witness='fir -length=65 -gpus=1,2', timeout=60, match=remainder_dropped,
+         text='discrete multi-GPU split drops the remainder: fir, relu, kmeans, aes, bitonicsort and matrixtranspose give every GPU '
+              'floor(N / nGPU) work-items (matrixtranspose: floor(tiles / nGPU) tile columns), so with N not divisible by nGPU the tail '
+              'is never computed (fir -length=65 -gpus=1,2: "At position 64, expected 6440, but get 0") and with N < nGPU a zero-sized '
+              'grid makes the driver dereference nil (fir -length=1, aes -length=16, bitonicsort -length=2); emulation; -unified-gpus is fine'),
     dict(id='floydwarshall-timing-node32', witness='floydwarshall -node=32 -timing', timeout=90,
-         match=lambda c: c['w'] == 'floydwarshall' and c['timing'] and '-node=32' in c['size'],
-         text='floydwarshall -timing (an acceptance-matrix class, listed with the default 16 nodes) fails -verify for 32 and 64 nodes '
+         match=lambda c: c['w'] == 'floydwarshall' and c['timing'] and vals(c).get('node', 16) > 16,
+         text='floydwarshall -timing (an acceptance-matrix class, listed with the default 16 nodes) fails -verify for 24, 32, 48, 64 nodes '
               '(Mismatch at row 0 col 1) while emulation passes and 8/16 nodes pass in timing: timing and emulation disagree on this kernel'),
+    dict(id='pagerank-timing-iterations', witness='pagerank -node=32 -sparsity=0.5 -iterations=3 -timing', timeout=90,
+         match=lambda c: c['w'] == 'pagerank' and c['timing'] and vals(c).get('iterations', 16) >= 3,
+         text='pagerank -timing (an acceptance-matrix class, listed with 2 iterations) fails -verify from the 3rd iteration on '
+              '(Mismatch at 0, third significant digit) for 32/65/100 nodes and from the 5th for 16 nodes, 1 GPU and 2 GPUs plain/unified; '
+              'emulation passes for every iteration count: timing and emulation disagree'),
+    dict(id='floydwarshall-node-multiple-of-8', witness='floydwarshall -node=17', timeout=60,
+         match=lambda c: c['w'] == 'floydwarshall' and vals(c).get('node', 16) % 8 != 0,
+         text='floydwarshall with a node count that is not a multiple of 8 (4, 12, 17, 20) fails -verify in emulation: the grid is '
+              'node/blockSize work-groups per dimension and the kernel has no bounds check; the precondition is not checked'),
+    dict(id='atax-ny-greater-nx', witness='atax -x=64 -y=100', timeout=60,
+         match=lambda c: c['w'] == 'atax' and vals(c).get('y', 4096) > vals(c).get('x', 4096),
+         text='atax with -y greater than -x panics in host code (index out of range [x] with length x) on every architecture; '
+              '-y <= -x and every bicg shape pass'),
+    dict(id='kmeans-fewer-points-than-clusters', witness='kmeans -points=4 -features=3 -clusters=5 -max-iter=1', timeout=60,
+         match=lambda c: c['w'] == 'kmeans' and vals(c).get('points', 1024) < vals(c).get('clusters', 5),
+         text='kmeans with fewer points than clusters panics in host code (index out of range) instead of rejecting the input'),
+    dict(id='matrixmultiplication-tile-multiples', witness='matrixmultiplication -x=48 -y=32 -z=32', timeout=60, match=mm_tiles,
+         text='matrixmultiplication fails -verify in emulation unless -x is a multiple of 32 (gcn3, when z >= 32: 16x*x32, 48x*x32 ... '
+              'mismatch at [0,0]); the gfx942 kernel additionally needs -z to be a multiple of 32 (cdna3: 32x32x16, 64x64x48 mismatch)'),
+    dict(id='matrixmultiplication-tile-multiples', witness='matrixmultiplication -x=32 -y=32 -z=16 -arch=cdna3', timeout=60,
+         match=lambda c: False, text='same class, cdna3 witness'),
+    dict(id='matrixtranspose-width-multiple-of-64', witness='matrixtranspose -width=100', timeout=60,
+         match=lambda c: c['w'] == 'matrixtranspose' and vals(c).get('width', 256) % 64 != 0,
+         text='matrixtranspose with a width that is not a multiple of 64 (96, 100) leaves the columns from 64 on untransposed: -verify fails'),
+    dict(id='nw-length', witness='nw -length=192', timeout=60,
+         match=lambda c: c['w'] == 'nw' and vals(c).get('length', 64) not in (64, 128),
+         text='nw verifies only for -length=64 and 128; 16/32/48/100 and 192/256/320 fail (mismatch at (129,129) for 192: rows/cols from '
+              '129 on keep their initial value), gcn3 and cdna3'),
+    dict(id='spmv-cdna3-dim-over-128', witness='spmv -dim=129 -sparsity=1 -arch=cdna3', timeout=60,
+         match=lambda c: c['w'] == 'spmv' and c['arch'] == 'cdna3' and vals(c).get('dim', 128) > 128,
+         text='spmv -arch=cdna3 computes only the first 128 rows: dim 129/192/256/300 fail -verify ("not match at (128), expected 0") '
+              'whenever row 128 has a non-zero; gcn3 passes; the acceptance matrix lists spmv cdna3 with the default dim 128'),
+    dict(id='im2col-non-square', witness='im2col -H=8 -W=11', timeout=60,
+         match=lambda c: c['w'] == 'im2col' and vals(c).get('H', 28) != vals(c).get('W', 28),
+         text='im2col with a non-square input (H != W) fails its GPU-vs-CPU verification (or runs the emulator into undecodable code) '
+              'for every kernel/stride/padding/dilation choice; all square inputs pass; conv2d passes for the same shapes'),
     dict(id='stencil2d-column-count', witness='stencil2d -row=64 -col=66', timeout=60,
-         match=lambda c: False,
+         match=lambda c: c['w'] == 'stencil2d' and vals(c).get('col', 64) not in (64, 127, 128, 192),
          text='stencil2d with a column count other than 64/127/128/192 (e.g. -col=66: one full 64-lane work-group) makes the emulator '
-              'run into undecodable/unimplemented instructions and panic; sizes excluded from the matrix, cause not isolated'),
+              'run into undecodable/unimplemented instructions and panic; cause not isolated'),
+    dict(id='stencil2d-row-count', witness='stencil2d -row=66 -col=64', timeout=60,
+         match=lambda c: c['w'] == 'stencil2d' and vals(c).get('row', 64) != 64,
+         text='stencil2d with a row count other than 64 (18, 34, 50, 66, 130) fails -verify at the last interior/boundary row '
+              '("not match at (65,1), expected 1.0 to equal 0.5"): grid rows = (row-2)/16 truncates and the reference disagrees'),
 ]
 
 TEARDOWN_SIG = 'assignment to entry in nil map'
@@ -259,74 +366,117 @@ def mk(w, size, arch='gcn3', gpus='', unified=False, um=False, timing=False, gpu
                 ngpu=len(gpus.split(',')) if gpus else 1)
 
 
-def full_matrix():
-    m = []
-    for w, d in W.items():
-        for s in d['sizes']:
-            m.append(mk(w, s))
-            cd = d['cdna3'] and s in d.get('cdna3_sizes', d['sizes'])
-            if cd:
-                m.append(mk(w, s, arch='cdna3'))
-            msz = d.get('multi_sizes', d['sizes'][:1])
-            if s in msz:
-                for g in ('2', '1,2', '1,2,3,4'):
-                    if d['multi'] or g == '2':
-                        m.append(mk(w, s, gpus=g))
-                        if d['um'] and (d['multi'] or g == '2'):
-                            m.append(mk(w, s, gpus=g, um=True))
-                if d['unified']:
-                    for g in ('1,2', '1,2,3,4'):
-                        m.append(mk(w, s, gpus=g, unified=True))
-                        if cd:
-                            m.append(mk(w, s, arch='cdna3', gpus=g, unified=True))
-                        if d['um']:
-                            m.append(mk(w, s, gpus=g, unified=True, um=True))
-            if d['um']:
-                m.append(mk(w, s, um=True))
-            if d['timing'] and s in d.get('timing_sizes', d['sizes']):  # acceptance-matrix classes (r9nano timing platform)
-                m.append(mk(w, s, timing=True))
-                if d['um']:
-                    m.append(mk(w, s, timing=True, um=True))
-                if s in msz:
-                    if d['multi']:
-                        m.append(mk(w, s, timing=True, gpus='1,2'))
-                    if d['unified']:
-                        m.append(mk(w, s, timing=True, gpus='1,2', unified=True))
-                        m.append(mk(w, s, timing=True, gpus='1,2,3,4', unified=True))
-    # mi300a timing: the one class the acceptance matrix lists
-    for s in ('-width=4096 -height=1', '-width=100 -height=3'):
-        m.append(mk('vectoradd', s, arch='cdna3', timing=True, gpu='mi300a'))
-        m.append(mk('vectoradd', s, arch='cdna3', timing=True, gpu='mi300a', gpus='1,2', unified=True))
-    return [c for c in m if not any(k['match'](c) for k in KNOWN)]
+def known_class(c):
+    for k in KNOWN:
+        if k['match'](c):
+            return k['id']
+    return None
+
+
+def draw(rng):
+    """one configuration: workload uniform, every size parameter drawn independently
+    from its own list, then an execution class the workload supports"""
+    w = rng.choice(list(P))
+    d = P[w]
+    size = ' '.join('-%s=%s' % (k, rng.choice(vs)) for k, vs in d['params'])
+    classes = [dict()]
+    if d['cdna3']:
+        classes += [dict(arch='cdna3')] * 2
+    classes += [dict(gpus='2')]
+    if d['multi']:
+        classes += [dict(gpus='1,2'), dict(gpus='1,2,3,4')]
+        if d['um']:
+            classes += [dict(gpus='1,2', um=True)]
+    if d['unified']:
+        classes += [dict(gpus='1,2', unified=True), dict(gpus='1,2,3,4', unified=True)]
+        if d['cdna3']:
+            classes += [dict(arch='cdna3', gpus='1,2', unified=True)]
+        if d['um']:
+            classes += [dict(gpus='1,2', unified=True, um=True)]
+    if d['um']:
+        classes += [dict(um=True)]
+    if d['timing']:  # acceptance-matrix classes (r9nano timing platform)
+        classes += [dict(timing=True)] * 2
+        if d['um']:
+            classes += [dict(timing=True, um=True)]
+        if d['multi']:
+            classes += [dict(timing=True, gpus='1,2')]
+        if d['unified']:
+            classes += [dict(timing=True, gpus='1,2', unified=True), dict(timing=True, gpus='1,2,3,4', unified=True)]
+    if w == 'vectoradd':  # mi300a timing: the one class the acceptance matrix lists
+        classes += [dict(arch='cdna3', timing=True, gpu='mi300a'), dict(arch='cdna3', timing=True, gpu='mi300a', gpus='1,2', unified=True)]
+    return mk(w, size, **rng.choice(classes))
+
+
+def draw_matrix(rng, n, seen):
+    """n distinct configurations outside the known-finding classes; the number of
+    draws that fell into a known class is reported in the evidence"""
+    out, skipped = [], collections.Counter()
+    tries = 0
+    while len(out) < n and tries < 200 * n:
+        tries += 1
+        c = draw(rng)
+        k = known_class(c)
+        if k:
+            skipped[k] += 1
+            continue
+        if cfg_cmd(c) in seen:
+            continue
+        seen.add(cfg_cmd(c))
+        out.append(c)
+    return out, skipped
+
+
+def core_matrix():
+    """fixed part of every run: per workload with several size parameters a few
+    rectangular shapes (each dimension on its own side of a work-group / tile
+    multiple), plus the execution classes of the acceptance matrix on small sizes"""
+    core = [
+        mk('fir', '-length=100 -taps=16'), mk('fir', '-length=257 -taps=33', arch='cdna3'), mk('fir', '-length=100', gpus='1,2'),
+        mk('fir', '-length=1000', gpus='1,2', unified=True), mk('fir', '-length=65 -taps=1', timing=True),
+        mk('bicg', '-x=200 -y=300'), mk('bicg', '-x=300 -y=200', arch='cdna3'), mk('bicg', '-x=17 -y=257'),
+        mk('bicg', '-x=257 -y=100', gpus='1,2,3,4', unified=True), mk('bicg', '-x=64 -y=300', timing=True),
+        mk('atax', '-x=300 -y=200'), mk('atax', '-x=257 -y=17', arch='cdna3'), mk('atax', '-x=100 -y=33', um=True),
+        mk('atax', '-x=64 -y=64', timing=True, gpus='1,2'),
+        mk('matrixmultiplication', '-x=32 -y=48 -z=64'), mk('matrixmultiplication', '-x=96 -y=16 -z=32', arch='cdna3'),
+        mk('matrixmultiplication', '-x=64 -y=16 -z=48'), mk('matrixmultiplication', '-x=32 -y=64 -z=16', timing=True),
+        mk('simpleconvolution', '-width=17 -height=100 -mask-size=5'), mk('simpleconvolution', '-width=100 -height=17 -mask-size=3', arch='cdna3'),
+        mk('simpleconvolution', '-width=64 -height=30 -mask-size=7'),
+        mk('stencil2d', '-row=64 -col=127 -iter=3'), mk('stencil2d', '-row=64 -col=192', arch='cdna3', gpus='1,2', unified=True),
+        mk('kmeans', '-points=65 -features=3 -clusters=2 -max-iter=3'), mk('kmeans', '-points=100 -features=34 -clusters=7 -max-iter=1', arch='cdna3'),
+        mk('kmeans', '-points=256 -features=1 -clusters=5 -max-iter=2', gpus='1,2'),
+        mk('spmv', '-dim=63 -sparsity=0.1', arch='cdna3'), mk('spmv', '-dim=256 -sparsity=0.02'), mk('spmv', '-dim=100 -sparsity=1', gpus='1,2'),
+        mk('nbody', '-particles=100 -iter=3'), mk('nbody', '-particles=256 -iter=1', arch='cdna3'),
+        mk('pagerank', '-node=65 -sparsity=0.1 -iterations=2', gpus='1,2'), mk('pagerank', '-node=100 -sparsity=0.5 -iterations=1', timing=True),
+        mk('conv2d', '-N=2 -C=3 -H=9 -W=11 -output-channel=2 -kernel-height=3 -kernel-width=1 -pad-x=1 -pad-y=0 -stride-x=1 -stride-y=2'),
+        mk('conv2d', '-H=28 -W=8 -kernel-height=1 -kernel-width=3 -stride-x=2'),
+        mk('im2col', '-N=2 -C=3 -H=9 -W=9 -kernel-height=3 -kernel-width=1 -pad-x=1 -stride-y=2 -dilate-x=2'),
+        mk('im2col', ''), mk('conv2d', ''),  # default shapes: 2-D work-groups partially filled in X (676 x 9 outputs, 8x8 groups)
+        mk('vectoradd', '-width=65 -height=3'), mk('vectoradd', '-width=4096 -height=1', arch='cdna3', timing=True, gpu='mi300a'),
+        mk('matrixtranspose', '-width=256', gpus='1,2'), mk('matrixtranspose', '-width=64', arch='cdna3'),
+        mk('matrixtranspose', '-width=64', arch='cdna3', timing=True, gpu='mi300a'),  # failed before the V5 id-packing fix (DESIGN §4 row 9c)
+        mk('aes', '-length=1024', arch='cdna3'), mk('bitonicsort', '-length=256 -order-asc=false'),
+        mk('floydwarshall', '-node=16 -iter=0', gpus='1,2', unified=True, timing=True), mk('floydwarshall', '-node=24 -iter=3'),
+        mk('fft', '-bytes=8192 -passes=2', arch='cdna3'), mk('bfs', '-node=63 -degree=5 -depth=2', arch='cdna3'),
+        mk('nw', '-length=128', arch='cdna3'), mk('relu', '-length=63', timing=True), mk('fastwalshtransform', '-length=512'),
+    ]
+    bad = [cfg_cmd(c) for c in core if known_class(c)]
+    assert not bad, 'core configuration inside a known-finding class: %s' % bad
+    return core
 
 
 def quick_matrix(rng):
-    """fixed core (one emulation run per workload family, the classes of the
-    acceptance matrix on small sizes) + a few configurations drawn from the full matrix"""
-    core = [
-        mk('fir', '-length=100'), mk('fir', '-length=1000', arch='cdna3'), mk('fir', '-length=100', gpus='1,2'),
-        mk('fir', '-length=1000', gpus='1,2', unified=True), mk('fir', '-length=100', timing=True),
-        mk('matrixtranspose', '-width=256', gpus='1,2'), mk('matrixtranspose', '-width=64', arch='cdna3'),
-        mk('matrixmultiplication', '-x=32 -y=32 -z=32', timing=True),
-        mk('atax', '-x=33 -y=17', um=True), mk('bicg', '-x=64 -y=64', gpus='1,2,3,4', unified=True),
-        mk('kmeans', '-points=65 -features=3 -clusters=2 -max-iter=3'), mk('aes', '-length=1024', arch='cdna3'),
-        mk('bitonicsort', '-length=256'), mk('simpleconvolution', '-width=17 -height=33'),
-        mk('spmv', '-dim=63 -sparsity=0.1', arch='cdna3'), mk('stencil2d', '-row=64 -col=64', arch='cdna3', gpus='1,2', unified=True),
-        mk('atax', '-x=64 -y=64', timing=True, gpus='1,2'), mk('vectoradd', '-width=4096 -height=1', arch='cdna3', timing=True, gpu='mi300a'),
-        mk('matrixtranspose', '-width=64', arch='cdna3', timing=True, gpu='mi300a'),  # failed before the V5 id-packing fix (DESIGN §4 row 9c)
-        mk('floydwarshall', '-node=16', gpus='1,2', unified=True, timing=True), mk('nbody', '-particles=100 -iter=2'),
-        mk('pagerank', '-node=65 -sparsity=0.1 -iterations=2', gpus='1,2'), mk('fft', '-bytes=8192', arch='cdna3'),
-        mk('bfs', '-node=63', arch='cdna3'), mk('nw', '-length=64', arch='cdna3'),
-    ]
-    full = full_matrix()
+    core = core_matrix()
     seen = {cfg_cmd(c) for c in core}
-    extra = []
-    while len(extra) < 12:
-        c = full[rng.randrange(len(full))]
-        if cfg_cmd(c) not in seen:
-            seen.add(cfg_cmd(c))
-            extra.append(c)
-    return core + extra
+    extra, skipped = draw_matrix(rng, 20, seen)
+    return core + extra, skipped
+
+
+def thorough_matrix(rng, n=900):
+    core = core_matrix()
+    seen = {cfg_cmd(c) for c in core}
+    extra, skipped = draw_matrix(rng, n, seen)
+    return core + extra, skipped
 
 
 def build_samples(names):
@@ -404,6 +554,7 @@ def main(argv):
     matrix_future = None
     pool = ThreadPoolExecutor(max_workers=1)
     rng = random.Random(seed)
+    skipped_known = collections.Counter()
     if replay_obj and replay_obj.get('config'):
         matrix = []
         witnesses = []
@@ -412,14 +563,7 @@ def main(argv):
         matrix, witnesses, single = [], [], []
     else:
         single = []
-        if thorough:
-            full = full_matrix()
-            rng.shuffle(full)
-            core = quick_matrix(random.Random(seed))
-            seen = {cfg_cmd(c) for c in core}
-            matrix = core + [c for c in full if cfg_cmd(c) not in seen][:900]
-        else:
-            matrix = quick_matrix(rng)
+        matrix, skipped_known = thorough_matrix(rng) if thorough else quick_matrix(rng)
         witnesses = KNOWN
         if os.environ.get('VERIF_C01_PART') == 'glue':   # development aid: proofs + correspondence only
             matrix, witnesses = [], []
@@ -571,6 +715,19 @@ def main(argv):
     if not replay_obj:
         rep.obligation('validation matrix: %d configurations pass -verify (re-run on failure)' % len(runs), not fails)
 
+    def rectangular(cmd):
+        """two size parameters of the same kind with different values (x/y[/z], width/height, row/col, H/W)"""
+        v = {}
+        for tok in cmd.split()[1:]:
+            if '=' in tok:
+                k, x = tok.lstrip('-').split('=', 1)
+                v[k] = x
+        for grp in (('x', 'y', 'z'), ('width', 'height'), ('row', 'col'), ('H', 'W')):
+            xs = [v[k] for k in grp if k in v]
+            if len(xs) >= 2 and len(set(xs)) >= 2:
+                return True
+        return False
+
     per = collections.Counter()
     for r in runs:
         a = r['cmd'].split()
@@ -590,7 +747,9 @@ def main(argv):
                 'static LDS size incl. values near 2^32; 1-4 GPUs, plain/unified device, repeated launch) marshalled by the real driver; '
                 'non-trivial = at least one LDS pointer and three fields. emuloop: random structured toy programs (skips, counted loops, '
                 'barriers, wavefront-dependent early exits) on 1-5 wavefronts x 1-2 work-groups run by the real compute unit; non-trivial = '
-                'at least two wavefronts and a barrier. matrix: distinct sample command lines that passed -verify.',
+                'at least two wavefronts and a barrier. matrix: distinct sample command lines that passed -verify; every size parameter of a workload is drawn independently '
+                'from its own list (rectangular shapes, values on both sides of work-group / tile multiples), a fixed core with rectangular '
+                'shapes per multi-parameter workload runs every time; combinations inside a known-finding class are skipped and counted.',
         'traces_validated_against_impl': len(kterms) + len(tc),
         'kernarg_launches': len(kterms), 'kernarg_cases': len(kc),
         'kernarg_with_lds_pointer': sum(1 for c in kc if any(f['t'] == 'local' for f in c['fields'])),
@@ -602,6 +761,8 @@ def main(argv):
         'matrix_runs': len(runs), 'matrix_failed': len(fails), 'matrix_flaky_rerun_passed': len(flaky),
         'matrix_distribution': dict(per), 'matrix_seconds': round(sum(r['secs'] for r in runs), 1),
         'known_finding_witnesses_run': len(known_seen) + len(known_gone),
+        'random_draws_inside_known_classes': dict(skipped_known),
+        'matrix_rectangular': sum(1 for r in runs if rectangular(r['cmd'])),
     })
     rep.samples = []
     if kc:
